@@ -58,6 +58,7 @@ def check_program(prog, fname, *, harness, inst, extra_pre=(), quirks=(), optimi
         except symx.Abort:
             raise
         except Exception as e:  # noqa: BLE001 -- outcome of the code under analysis
+            symx.reraise_watchdog(e)
             return r_ref, g_ref, VMFailure(e), None
         return r_ref, g_ref, r_vm, g_vm
 
